@@ -198,8 +198,9 @@ def _small_thr(lines, idx):
 def sig_multibatch_commit_cut(lines, d):
     # K7: a commit split over several physical writes (flush threshold of a few hundred bytes)
     why = d.get("why") or ""
+    # (an interrupted commit can always be repeated on the unchanged tree: a failing retry is not this finding)
     return (d["kind"] == "oracle" and d["line"].split()[0] in ("save", "savecs") and _small_thr(lines, d["idx"])
-            and ("load-failed" in why or "index:" in why or "get!=walk" in why))
+            and ("load-failed" in why or "index:" in why or "get!=walk" in why) and "retry-" not in why)
 
 
 def sig_multibatch_commit_fault(lines, d):
@@ -212,8 +213,13 @@ def sig_multibatch_commit_fault(lines, d):
 def sig_multibatch_delete_cut(lines, d):
     # K7c: a deletion of old versions / a rollback split over several physical writes
     why = d.get("why") or ""
-    return (d["kind"] == "oracle" and d["line"].split()[0] in ("prune", "loadow", "delfrom") and _small_thr(lines, d["idx"])
-            and ("mixture:" in why or "load-failed" in why or "retry-" in why or "index:" in why or "lost:" in why))
+    # an interrupted rollback may be impossible to repeat from the half-deleted state; an interrupted
+    # deletion of old versions can always be repeated on the unchanged tree, so a failing retry of `prune`
+    # is not this finding
+    op = d["line"].split()[0]
+    return (d["kind"] == "oracle" and op in ("prune", "loadow", "delfrom") and _small_thr(lines, d["idx"])
+            and ("mixture:" in why or "load-failed" in why or "retry-" in why or "index:" in why or "lost:" in why)
+            and not (op == "prune" and "retry-" in why))
 
 
 def sig_v2_recommit_sharded(lines, d):
